@@ -7,18 +7,28 @@
   (the structure the header values in `buf[0..n)` describe, if all of it lies
   below `n`).
 
-  The property has three clauses.  On the current code only one of them holds
-  at full strength, and only outside one corner:
+  The property has three clauses.  On the current code the first holds at full
+  strength, the other two do not:
 
-  * verdict/size (`checked_valid_iff`): FALSE for a `<data>` member with a 64-bit
-    length prefix (`sizeof(length) + length` wraps in `size_t`); TRUE for every
-    layout without such a member (`checked_valid_iff_partial`).
+  * verdict/size (`checked_valid_iff`, `checked_group_valid_iff`): TRUE for every
+    layout, every buffer and every `n` a `std::size_t` can hold (`n < 2^64`).
+    Until /repo 3b08414 it was false for a `<data>` member with a 64-bit length
+    prefix: `on_data` validated `size_bytes(d)` = `sizeof(length) + length`, which
+    wraps in `std::size_t` (`wideMsg`/`wideBuf` below: `{valid = true, size = 9}`
+    for a payload of 2^64-1 bytes); the theorem then carried the hypothesis "no
+    `<data>` member has a 64-bit length prefix" (then `NarrowL`).  `on_data` now
+    validates the prefix and the payload one after the other; the witness is kept
+    as a regression example (`valid = false`).  The bound `n < 2^64` is the type
+    of `n`; in the model, whose offsets are unbounded naturals, it is needed
+    (`checked_valid_iff_needs_size_t`): the cursor accessor still advances by the
+    `std::size_t` sum, which for an accepted member is exact only below 2^64.
   * no read at an offset ≥ n (`checked_reads_below_n`): FALSE - the generated
     `visit_children` evaluates `this->d(c)` (which reads the length prefix) before
     `on_data` validates it, and `on_message`/`on_entry` validate the WIRE block
     length but the accessors read at the COMPILED offsets; TRUE on buffers that
     contain a complete structure whose wire block lengths are at least the compiled
-    ones (`checked_reads_below_n_partial`).
+    ones (`checked_reads_below_n_partial`; `n < 2^64`, no restriction on the length
+    prefixes any more).
     Unconditionally the over-read is bounded by a constant of the schema
     (`checked_reads_slack`).
   * work bounded by a function of n (`checked_work_bounded`): FALSE - entries of
@@ -65,45 +75,72 @@ theorem validIff_of_reports {r : Result} {o : Option Nat} (h : Reports r o) : Va
   | none => obtain ⟨h1, h2⟩ := h; simp [ValidIff, h1, h2]
   | some sz => obtain ⟨h1, h2⟩ := h; simp [ValidIff, h1, h2]
 
-/-- full strength: for every message layout, every buffer of bytes and every `n` -/
+/-- full strength: for every message layout, every buffer of bytes and every `n`
+    (a `std::size_t`) -/
 def C06_valid_iff_full : Prop :=
-  ∀ (bo : ByteOrder) (m : CMsg) (buf : List Nat) (n : Nat), IsBytes buf →
+  ∀ (bo : ByteOrder) (m : CMsg) (buf : List Nat) (n : Nat), IsBytes buf → n < 2 ^ 64 →
     ValidIff (runMsg bo buf none m n) (parseMsg bo buf n m.hdrSize m.blOff m.blSize m.level.erase)
 
-/-- **checked_valid_iff_partial**: for every layout in which no `<data>` member has
-    a 64-bit length prefix, every byte buffer and every `n`:
+/-- **checked_valid_iff**: for every layout, every buffer and every `n < 2^64`:
     `size_bytes_checked(message, n)` reports `valid` iff the structure described by
-    the buffer fits in `n` bytes, and then reports exactly its size -/
-theorem checked_valid_iff_partial (bo : ByteOrder) (m : CMsg) (buf : List Nat) (n : Nat) (hb : IsBytes buf)
-    (hn : NarrowL m.level) :
+    the buffer fits in `n` bytes, and then reports exactly its size; otherwise it
+    reports size 0.  (The buffer need not even consist of bytes.) -/
+theorem checked_valid_iff (bo : ByteOrder) (m : CMsg) (buf : List Nat) (n : Nat) (hn : n < 2 ^ 64) :
     ValidIff (runMsg bo buf none m n) (parseMsg bo buf n m.hdrSize m.blOff m.blSize m.level.erase) :=
-  validIff_of_reports (runMsg_exact bo buf n hb m hn)
+  validIff_of_reports (runMsg_exact bo buf n hn m)
 
 /-- the same for the group-view overload -/
-theorem checked_group_valid_iff_partial (bo : ByteOrder) (g : CGroup) (buf : List Nat) (n : Nat) (hb : IsBytes buf)
-    (hn : NarrowG g) :
+theorem checked_group_valid_iff (bo : ByteOrder) (g : CGroup) (buf : List Nat) (n : Nat) (hn : n < 2 ^ 64) :
     ValidIff (runGroup bo buf none g n) (parseGroup bo buf n g.erase) :=
-  validIff_of_reports (runGroup_exact bo buf n hb g hn)
+  validIff_of_reports (runGroup_exact bo buf n hn g)
 
-/-- witness: header (`blockLength : uint16` = 0), one `<data>` member with a
-    `uint64` length prefix holding 2^64-1, 10 bytes in all.  `size_bytes(d)`
-    wraps to 7, `validate_and_subtract(7)` succeeds on the remaining 8 bytes:
-    `{valid = true, size = 9}` although the payload cannot fit. -/
+/-- the full-strength statement holds -/
+theorem checked_valid_iff_full : C06_valid_iff_full :=
+  fun bo m buf n _ hn => checked_valid_iff bo m buf n hn
+
+/-- regression witness (the defect repaired by /repo 3b08414): header (`blockLength : uint16` = 0), one
+    `<data>` member with a `uint64` length prefix holding 2^64-1, 10 bytes in all.  `size_bytes(d)` wraps to
+    7; the earlier `on_data` validated those 7 against the remaining 8 bytes and reported
+    `{valid = true, size = 9}` although the payload cannot fit.  Now: 8 bytes of prefix validated, then
+    2^64-1 bytes of payload refused. -/
 def wideMsg : CMsg := { hdrSize := 2, blOff := 0, blSize := 2, level := .mk 0 [] [] [⟨8⟩] }
 def wideBuf : List Nat := [0, 0, 255, 255, 255, 255, 255, 255, 255, 255]
 
-example : (runMsg .little wideBuf none wideMsg 10).valid = true ∧ (runMsg .little wideBuf none wideMsg 10).size = 9 ∧
+example : (runMsg .little wideBuf none wideMsg 10).valid = false ∧ (runMsg .little wideBuf none wideMsg 10).size = 0 ∧
     parseMsg .little wideBuf 10 2 0 2 wideMsg.level.erase = none := by decide
 
-theorem checked_valid_iff_full_false : ¬ C06_valid_iff_full := by
+/-- a second wrap: length 2^64-8, `size_bytes(d)` = 0 (the earlier code reported `{valid = true, size = 2}`) -/
+def wideBuf0 : List Nat := [0, 0, 248, 255, 255, 255, 255, 255, 255, 255]
+
+example : (runMsg .little wideBuf0 none wideMsg 10).valid = false ∧
+    parseMsg .little wideBuf0 10 2 0 2 wideMsg.level.erase = none := by decide
+
+/-- a 64-bit length prefix that does fit: 3 bytes of payload, 13 bytes in all; and its truncations -/
+def wideOkBuf : List Nat := [0, 0, 3, 0, 0, 0, 0, 0, 0, 0, 0x61, 0x62, 0x63]
+
+example : (runMsg .little wideOkBuf none wideMsg 13).valid = true ∧ (runMsg .little wideOkBuf none wideMsg 13).size = 13 ∧
+    parseMsg .little wideOkBuf 13 2 0 2 wideMsg.level.erase = some 13 ∧
+    (runMsg .little wideOkBuf none wideMsg 12).valid = false ∧ (runMsg .little wideOkBuf none wideMsg 9).valid = false ∧
+    (runMsg .little wideOkBuf none wideMsg 40).size = 13 := by decide
+
+/-- why `n < 2^64` is a hypothesis of the MODEL theorem (it is no restriction of the C++ function, whose `n` is a
+    `std::size_t`): offsets are unbounded naturals in the model, and the cursor accessor of a `<data>` member
+    advances by `sizeof(length) + length` computed in `std::size_t`.  For an imaginary `n = 2^64 + 20` a payload
+    of 2^64-1 bytes "fits", the advance wraps to 7 and the second member is looked for at offset 9 instead of
+    2^64+9. -/
+def twoDataMsg : CMsg := { hdrSize := 2, blOff := 0, blSize := 2, level := .mk 0 [] [] [⟨8⟩, ⟨1⟩] }
+
+theorem checked_valid_iff_needs_size_t :
+    ¬ ∀ (bo : ByteOrder) (m : CMsg) (buf : List Nat) (n : Nat), IsBytes buf →
+      ValidIff (runMsg bo buf none m n) (parseMsg bo buf n m.hdrSize m.blOff m.blSize m.level.erase) := by
   intro h
-  have := h .little wideMsg wideBuf 10 (by unfold IsBytes wideBuf; decide)
+  have := h .little twoDataMsg wideBuf (2 ^ 64 + 20) (by unfold IsBytes wideBuf; decide)
   revert this
   decide
 
-/-! non-vacuity of the partial theorem: a message with a field, a group with a
-    nested data member and a trailing data member; the complete image, a
-    truncation and an inflated `numInGroup` -/
+/-! non-vacuity: a message with a field, a group with a nested data member and a
+    trailing data member; the complete image, a truncation and an inflated
+    `numInGroup` -/
 def exMsg : CMsg :=
   { hdrSize := 4, blOff := 0, blSize := 2,
     level := .mk 2 [⟨0, 2, true⟩]
@@ -112,7 +149,6 @@ def exMsg : CMsg :=
 /-- hdr(bl=2,..) | block | dim(bl=1,n=2) | e0: x, d=<61> | e1: x, d=<> | data e=<62 63> -/
 def exBuf : List Nat := [2, 0, 9, 9, 7, 7, 1, 0, 2, 5, 1, 0x61, 6, 0, 2, 0, 0x62, 0x63]
 
-example : NarrowL exMsg.level := by simp [exMsg, NarrowL, NarrowGs, NarrowG]
 example : IsBytes exBuf := by unfold IsBytes exBuf; decide
 example : parseMsg .little exBuf 18 4 0 2 exMsg.level.erase = some 18 := by decide
 example : (runMsg .little exBuf none exMsg 18).valid = true ∧ (runMsg .little exBuf none exMsg 18).size = 18 := by decide
@@ -124,25 +160,27 @@ example : (runMsg .little exBuf none exMsg 30).size = 18 := by decide
 
 /-- full strength: for every well-formed layout, every buffer of exactly `n` bytes -/
 def C06_reads_below_n_full : Prop :=
-  ∀ (bo : ByteOrder) (m : CMsg) (buf : List Nat) (n : Nat), IsBytes buf → buf.length = n →
-    NarrowL m.level → InsideL m.level → m.blOff + m.blSize ≤ m.hdrSize →
+  ∀ (bo : ByteOrder) (m : CMsg) (buf : List Nat) (n : Nat), IsBytes buf → buf.length = n → n < 2 ^ 64 →
+    InsideL m.level → m.blOff + m.blSize ≤ m.hdrSize →
     ∀ a ∈ (runMsg bo buf none m n).reads, a.stop ≤ n
 
 /-- **checked_reads_below_n_partial**: if the buffer contains a complete message
     (`sparseMsg = some _`: every header, block and payload lies below `n`) whose
     wire block lengths are at least the compiled ones, then every read
-    `size_bytes_checked(message, n)` performs stops at or below `n` -/
-theorem checked_reads_below_n_partial (bo : ByteOrder) (m : CMsg) (buf : List Nat) (n : Nat) (hb : IsBytes buf)
-    (hn : NarrowL m.level) (hi : InsideL m.level) (hh : m.blOff + m.blSize ≤ m.hdrSize) (sz : Nat)
+    `size_bytes_checked(message, n)` performs stops at or below `n`.
+    (Until /repo 3b08414 this carried the hypothesis "no 64-bit length prefix" as well: the proof follows the
+    cursor with the exactness lemmas, which needed it.  What remains is `n < 2^64`, the type of `n`.) -/
+theorem checked_reads_below_n_partial (bo : ByteOrder) (m : CMsg) (buf : List Nat) (n : Nat) (hn : n < 2 ^ 64)
+    (hi : InsideL m.level) (hh : m.blOff + m.blSize ≤ m.hdrSize) (sz : Nat)
     (hfit : sparseMsg bo buf n m.hdrSize m.blOff m.blSize m.level.erase = some sz) :
     ∀ a ∈ (runMsg bo buf none m n).reads, a.stop ≤ n :=
-  runMsg_reads_strict bo buf n hb m hn hi hh sz hfit
+  runMsg_reads_strict bo buf n hn m hi hh sz hfit
 
 /-- the same for the group-view overload -/
-theorem checked_group_reads_below_n_partial (bo : ByteOrder) (g : CGroup) (buf : List Nat) (n : Nat) (hb : IsBytes buf)
-    (hn : NarrowG g) (hi : InsideG g) (sz : Nat) (hfit : sparseG bo buf n g.erase 0 = some sz) :
+theorem checked_group_reads_below_n_partial (bo : ByteOrder) (g : CGroup) (buf : List Nat) (n : Nat) (hn : n < 2 ^ 64)
+    (hi : InsideG g) (sz : Nat) (hfit : sparseG bo buf n g.erase 0 = some sz) :
     ∀ a ∈ (runGroup bo buf none g n).reads, a.stop ≤ n :=
-  runGroup_reads_strict bo buf n hb g hn hi sz hfit
+  runGroup_reads_strict bo buf n hn g hi sz hfit
 
 /-- a strict success is a success of the plain specification -/
 theorem strict_implies_fits (bo : ByteOrder) (buf : List Nat) (n hdrSize blOff blSize : Nat) (l : Level) (sz : Nat)
@@ -155,6 +193,9 @@ theorem strict_implies_fits (bo : ByteOrder) (buf : List Nat) (n hdrSize blOff b
 example : InsideL exMsg.level := by simp [exMsg, InsideL, InsideGs, InsideG, WFDim]
 example : sparseMsg .little exBuf 18 4 0 2 exMsg.level.erase = some 18 := by decide
 example : (runMsg .little exBuf none exMsg 18).maxRead = 16 := by decide
+/-- with a 64-bit length prefix -/
+example : sparseMsg .little wideOkBuf 13 2 0 2 wideMsg.level.erase = some 13 ∧
+    (runMsg .little wideOkBuf none wideMsg 13).maxRead = 10 := by decide
 
 /-- **checked_reads_slack** (unconditional): whatever the buffer holds, no read of
     `size_bytes_checked(message, n)` goes further than `slack` bytes beyond `n`,
@@ -184,8 +225,8 @@ example : dataMsg.slack = 2 ∧ (runMsg .little dataBuf none dataMsg 4).maxRead 
 
 theorem checked_reads_below_n_full_false : ¬ C06_reads_below_n_full := by
   intro h
-  have := h .little dataMsg dataBuf 4 (by unfold IsBytes dataBuf; decide) rfl
-    (by simp [dataMsg, NarrowL, NarrowGs]) (by simp [dataMsg, InsideL, InsideGs]) (by decide)
+  have := h .little dataMsg dataBuf 4 (by unfold IsBytes dataBuf; decide) rfl (by decide)
+    (by simp [dataMsg, InsideL, InsideGs]) (by decide)
   revert this
   decide
 
@@ -199,8 +240,8 @@ def shortBuf : List Nat := [0, 0, 1, 0]
 theorem checked_reads_short_block_witness :
     (runMsg .little shortBuf none shortMsg 4).valid = true ∧ (runMsg .little shortBuf none shortMsg 4).size = 4 ∧
     (runMsg .little shortBuf none shortMsg 4).firstOver 4 = some ⟨.field, 4, 4, 1⟩ ∧
-    InsideL shortMsg.level ∧ NarrowL shortMsg.level := by
-  refine ⟨by decide, by decide, by decide, by simp [shortMsg, InsideL, InsideGs], by simp [shortMsg, NarrowL, NarrowGs]⟩
+    InsideL shortMsg.level := by
+  refine ⟨by decide, by decide, by decide, by simp [shortMsg, InsideL, InsideGs]⟩
 
 /-! ### clause 3: work bounded by a function of `n` -/
 
@@ -275,26 +316,24 @@ theorem checked_model_is_extracted (bo : ByteOrder) (buf : List Nat) (m : CMsg) 
     checkedMsg bo buf m n = runMsg bo buf none m n ∧ checkedGroup bo buf g n = runGroup bo buf none g n :=
   ⟨Tie.runMsg_extracted bo buf none m n, Tie.runGroup_extracted bo buf none g n⟩
 
-theorem checked_valid_iff_partial_extracted (bo : ByteOrder) (m : CMsg) (buf : List Nat) (n : Nat) (hb : IsBytes buf)
-    (hn : NarrowL m.level) :
+theorem checked_valid_iff_extracted (bo : ByteOrder) (m : CMsg) (buf : List Nat) (n : Nat) (hn : n < 2 ^ 64) :
     ValidIff (checkedMsg bo buf m n) (parseMsg bo buf n m.hdrSize m.blOff m.blSize m.level.erase) := by
-  unfold checkedMsg; rw [Tie.runMsg_extracted]; exact checked_valid_iff_partial bo m buf n hb hn
+  unfold checkedMsg; rw [Tie.runMsg_extracted]; exact checked_valid_iff bo m buf n hn
 
-theorem checked_group_valid_iff_partial_extracted (bo : ByteOrder) (g : CGroup) (buf : List Nat) (n : Nat)
-    (hb : IsBytes buf) (hn : NarrowG g) :
+theorem checked_group_valid_iff_extracted (bo : ByteOrder) (g : CGroup) (buf : List Nat) (n : Nat) (hn : n < 2 ^ 64) :
     ValidIff (checkedGroup bo buf g n) (parseGroup bo buf n g.erase) := by
-  unfold checkedGroup; rw [Tie.runGroup_extracted]; exact checked_group_valid_iff_partial bo g buf n hb hn
+  unfold checkedGroup; rw [Tie.runGroup_extracted]; exact checked_group_valid_iff bo g buf n hn
 
-theorem checked_reads_below_n_partial_extracted (bo : ByteOrder) (m : CMsg) (buf : List Nat) (n : Nat) (hb : IsBytes buf)
-    (hn : NarrowL m.level) (hi : InsideL m.level) (hh : m.blOff + m.blSize ≤ m.hdrSize) (sz : Nat)
+theorem checked_reads_below_n_partial_extracted (bo : ByteOrder) (m : CMsg) (buf : List Nat) (n : Nat) (hn : n < 2 ^ 64)
+    (hi : InsideL m.level) (hh : m.blOff + m.blSize ≤ m.hdrSize) (sz : Nat)
     (hfit : sparseMsg bo buf n m.hdrSize m.blOff m.blSize m.level.erase = some sz) :
     ∀ a ∈ (checkedMsg bo buf m n).reads, a.stop ≤ n := by
-  unfold checkedMsg; rw [Tie.runMsg_extracted]; exact checked_reads_below_n_partial bo m buf n hb hn hi hh sz hfit
+  unfold checkedMsg; rw [Tie.runMsg_extracted]; exact checked_reads_below_n_partial bo m buf n hn hi hh sz hfit
 
 theorem checked_group_reads_below_n_partial_extracted (bo : ByteOrder) (g : CGroup) (buf : List Nat) (n : Nat)
-    (hb : IsBytes buf) (hn : NarrowG g) (hi : InsideG g) (sz : Nat) (hfit : sparseG bo buf n g.erase 0 = some sz) :
+    (hn : n < 2 ^ 64) (hi : InsideG g) (sz : Nat) (hfit : sparseG bo buf n g.erase 0 = some sz) :
     ∀ a ∈ (checkedGroup bo buf g n).reads, a.stop ≤ n := by
-  unfold checkedGroup; rw [Tie.runGroup_extracted]; exact checked_group_reads_below_n_partial bo g buf n hb hn hi sz hfit
+  unfold checkedGroup; rw [Tie.runGroup_extracted]; exact checked_group_reads_below_n_partial bo g buf n hn hi sz hfit
 
 theorem checked_reads_slack_extracted (bo : ByteOrder) (m : CMsg) (buf : List Nat) (n : Nat) :
     ∀ a ∈ (checkedMsg bo buf m n).reads, a.stop ≤ n + m.slack := by
@@ -312,11 +351,13 @@ theorem checked_group_work_accounted_extracted (bo : ByteOrder) (g : CGroup) (bu
     (checkedGroup bo buf g n).steps ≤ g.wmax * (n + 2 + (checkedGroup bo buf g n).zeroEntries) := by
   unfold checkedGroup; rw [Tie.runGroup_extracted]; exact checked_group_work_accounted bo g buf n
 
-/-- the extracted definitions compute (non-vacuity: the complete image, a truncation, and the three refutation
-    witnesses, evaluated through the generated member functions) -/
+/-- the extracted definitions compute (non-vacuity: the complete image, a truncation, the regression witness of
+    the repaired wrap, a fitting 64-bit length, and the two over-read witnesses, evaluated through the generated
+    member functions) -/
 example : (checkedMsg .little exBuf exMsg 18).valid = true ∧ (checkedMsg .little exBuf exMsg 18).size = 18 ∧
     (checkedMsg .little exBuf exMsg 18).steps = 10 ∧ (checkedMsg .little exBuf exMsg 17).valid = false := by decide
-example : (checkedMsg .little wideBuf wideMsg 10).valid = true ∧ (checkedMsg .little wideBuf wideMsg 10).size = 9 := by decide
+example : (checkedMsg .little wideBuf wideMsg 10).valid = false ∧ (checkedMsg .little wideBuf wideMsg 10).size = 0 ∧
+    (checkedMsg .little wideOkBuf wideMsg 13).valid = true ∧ (checkedMsg .little wideOkBuf wideMsg 13).size = 13 := by decide
 example : (checkedMsg .little dataBuf dataMsg 4).firstOver 4 = some ⟨.dataLength, 4, 1, 1⟩ := by decide
 example : (checkedMsg .little shortBuf shortMsg 4).firstOver 4 = some ⟨.field, 4, 4, 1⟩ := by decide
 
